@@ -6,6 +6,7 @@ checks stayed quiet and which reported something (a report here is either the ac
 `no-failing-input-found` of a harmless rewrite the extractor/model does not recognise, or a
 false alarm that has to be corrected)."""
 import json, os, shutil, subprocess, sys
+os.environ["VERIF_SCRATCH_EVIDENCE"] = "1"   # evidence of runs against a modified /repo goes under .work/
 ROOT = os.path.dirname(os.path.dirname(os.path.abspath(__file__)))
 out, tag = sys.argv[1], sys.argv[2]
 pids = [a for a in sys.argv[3:] if not a.startswith("--")] or [f"C{i:02d}" for i in range(1, 21)]
